@@ -27,8 +27,10 @@ def _ttsv_strategy(draw, tier):
     skip = draw(st.sampled_from([None] + list(range(N))))
     version = draw(st.sampled_from([None, 1, 2]))
     pat = draw(st.sampled_from(["all", "all", "some", "one", "none"]))
-    v = gen._pattern_values(draw, n, pat, vk)
-    return dict(X=h, skip_dim=skip, version=version, v=v, vform=draw(st.sampled_from(["array", "list"])))
+    vvk = cm.other_vkind(draw, vk)
+    v, vdt = cm.operand_values(draw, n, pat, vvk, cm.has_small_dtype(h))
+    return dict(X=h, skip_dim=skip, version=version, v=v, vform=draw(st.sampled_from(["array", "list"])), vdtype=vdt,
+                vvkind=vvk)
 
 
 def ttsv_body(ctx, case):
@@ -44,9 +46,13 @@ def ttsv_body(ctx, case):
     expect = cm.ref_ttv(A, vecs)
     bound = cm.ref_ttv(np.abs(A), {m: np.abs(v) for m in vecs})
     ctx.label(f"order{N}", f"size{shape[0]}", f"skip-{skip}", f"version-{case['version']}",
-              f"result-order{expect.ndim}")
+              f"result-order{expect.ndim}", *cm.state_label(h), "dtype-" + h.get("dtype", "float64"),
+              "vector-dtype-" + (case.get("vdtype") or "float64"), *cm.object_labels(X),
+              "values-mixed-kinds" if case.get("vvkind", h["vkind"]) != h["vkind"] else "values-same-kind")
     ctx.nt = shape[0] >= 2 and len(set(case["v"])) > 1 and N - first >= 2 and bool(np.any(expect != 0))
-    varg = v.copy() if case["vform"] == "array" else [float(x) for x in case["v"]]
+    as_int = (case.get("vdtype") or "float64").split("@")[0] != "float64"
+    varg = cm.cast(v, case.get("vdtype")) if case["vform"] == "array" else [
+        (int(x) if as_int else float(x)) for x in case["v"]]
     kw = {}
     if skip is not None:
         kw["skip_dim"] = int(skip)
@@ -62,7 +68,7 @@ def ttsv_body(ctx, case):
     else:
         expect_c, bound_c = expect, bound
     nterms = ref.prod(shape[first:]) * (N + 1)
-    cm.compare(ctx, got, expect_c, bound_c, nterms, cm.intvalued(h), "ttsv-value",
+    cm.compare(ctx, got, expect_c, bound_c, nterms, cm.intvalued(h) and case.get("vvkind", "int") == "int", "ttsv-value",
                f"skip={skip} version={case['version']}")
 
 
@@ -75,9 +81,12 @@ def _enum_ttsv(tier):
         combos += [(4, 3), (5, 2), (1, 1), (2, 4), (3, 4)]
     for N, n in combos:
         h = cm.fixed_holder("tensor", [n] * N, salt=N + n)
+        i = 0
         for skip in [None] + list(range(N)):
             for version in (None, 1, 2):
-                yield dict(X=h, skip_dim=skip, version=version, v=cm.fixed_vector(n, N), vform="array")
+                i += 1
+                yield dict(X=cm.fixed_state(h, i), skip_dim=skip, version=version, v=cm.fixed_vector(n, N), vform="array",
+                           vdtype=(None, "int64", "int32")[i % 3])
 
 
 @cell("C02/ttsv/enumerated", enum=_enum_ttsv)
@@ -113,8 +122,8 @@ def norm_body(ctx, case):
     shape = h["shape"]
     if kind == "tenmat":
         M = ref.matricize(A, case["rdims"], case["cdims"])
-        X = ttb.tenmat(M.copy(order="F"), np.array(case["rdims"], dtype=int), np.array(case["cdims"], dtype=int),
-                       tuple(shape))
+        X = ttb.tenmat(M.astype(np.dtype(h.get("dtype") or "float64")).copy(order="F"), np.array(case["rdims"], dtype=int),
+                       np.array(case["cdims"], dtype=int), tuple(shape))
     elif kind == "sptenmat":
         M = ref.matricize(A, case["rdims"], case["cdims"])
         # stored entries follow the stored order of the sparse case
@@ -125,14 +134,14 @@ def norm_body(ctx, case):
             subs2.append([r, c])
             vals2.append(v)
         if subs2:
-            X = ttb.sptenmat(np.array(subs2, dtype=int), np.array(vals2, dtype=float).reshape(-1, 1),
+            X = ttb.sptenmat(np.array(subs2, dtype=int), np.array(vals2, dtype=np.dtype(h.get("dtype") or "float64")).reshape(-1, 1),
                              np.array(case["rdims"], dtype=int), np.array(case["cdims"], dtype=int), tuple(shape))
         else:
             X = ttb.sptenmat(rdims=np.array(case["rdims"], dtype=int), cdims=np.array(case["cdims"], dtype=int),
                              tshape=tuple(shape))
     else:
         X = cm.build(h)
-    ctx.label(kind, *cm.holder_labels(h), "norm-zero" if S == 0 else "norm-nonzero")
+    ctx.label(kind, *cm.holder_labels(h), "norm-zero" if S == 0 else "norm-nonzero", *cm.object_labels(X))
     ctx.nt = len(set(A.ravel().tolist())) > 1 and S != 0
     with ctx.sut(f"{kind}.norm"):
         r = X.norm()
@@ -189,7 +198,7 @@ def contract_body(ctx, case):
     bound = np.trace(np.abs(A), axis1=i, axis2=j)
     N = A.ndim
     ctx.label(*cm.holder_labels(h), f"order{N}", "i<j" if i < j else "i>j", "adjacent" if abs(i - j) == 1 else "apart",
-              cm.fill_label(expect), f"tracesize{h['shape'][i]}")
+              cm.fill_label(expect), f"tracesize{h['shape'][i]}", *cm.object_labels(X))
     ctx.nt = N >= 3 and len(set(h["shape"])) >= 2 and h["shape"][i] >= 2 and bool(np.any(expect != 0))
     with ctx.sut(f"{kind}.contract"):
         R = X.contract(i, j)
@@ -213,9 +222,9 @@ def _enum_contract(tier):
     for sh in shapes:
         for hk in ("tensor", "sptensor", "sptensor-thin", "sptensor-one", "sptensor-empty"):
             h = cm.fixed_holder(hk, sh, salt=len(sh))
-            for i, j in itertools.permutations(range(len(sh)), 2):
+            for q, (i, j) in enumerate(itertools.permutations(range(len(sh)), 2)):
                 if sh[i] == sh[j]:
-                    yield dict(X=h, i=i, j=j)
+                    yield dict(X=cm.fixed_state(h, q), i=i, j=j)
 
 
 @cell("C02/contract/enumerated", enum=_enum_contract)
@@ -288,7 +297,7 @@ def collapse_body(ctx, case):
         args.append(fun)
     ctx.label(*cm.holder_labels(h), "reducer-" + red, "dims-" + form, f"ncollapsed{len(dims)}of{N}",
               "dims-unsorted" if dims != sorted(dims) else "dims-sorted", cm.fill_label(expect),
-              f"remaining{N - len(dims)}")
+              f"remaining{N - len(dims)}", *cm.object_labels(X))
     ctx.nt = len(set(shape)) >= 2 and dims != list(range(len(dims))) and len(set(A.ravel().tolist())) > 2
     with ctx.sut(f"{kind}.collapse"):
         R = X.collapse(*args)
@@ -314,13 +323,17 @@ def _enum_collapse(tier):
     for sh in shapes:
         N = len(sh)
         for hk in ("tensor", "sptensor", "sptensor-thin", "sptensor-one", "sptensor-empty"):
-            h = cm.fixed_holder(hk, sh, salt=N + 3)
+            h0 = cm.fixed_holder(hk, sh, salt=N + 3)
+            h = h0
             reds = DENSE_REDUCERS if hk == "tensor" else SPARSE_REDUCERS
+            q = 0
             for k in range(1, N + 1):
                 for dims in itertools.permutations(range(N), k):
                     if list(dims) != sorted(dims) and list(dims) != sorted(dims, reverse=True):
                         continue  # reducers here are symmetric: ascending and descending listings suffice
                     for red in reds:
+                        q += 1
+                        h = cm.fixed_state(h0, q)
                         yield dict(X=h, dims=list(dims), dform="int" if k == 1 and dims[0] % 2 else "array", reducer=red)
             for red in reds:
                 yield dict(X=h, dims=list(range(N)), dform="none", reducer=red)
@@ -390,7 +403,7 @@ def reconstruct_ttensor(ctx, case):
                 M = np.array(s["value"], dtype=float).reshape(len(s["value"]), shape[m])
                 expect, bound = cm.ref_ttm(expect, {m: M}), cm.ref_ttm(bound, {m: np.abs(M)})
                 nmul *= shape[m]
-    ctx.label("form-" + form, *cm.holder_labels(h), f"order{len(shape)}")
+    ctx.label("form-" + form, *cm.holder_labels(h), f"order{len(shape)}", *cm.object_labels(X))
     if form != "full":
         ctx.label(*["sample-" + s["kind"] for s in case["samples"]],
                   "modes-unsorted" if case["modes"] != sorted(case["modes"]) else "modes-sorted")
